@@ -82,6 +82,13 @@ def run(tier, seed):
                 p['ph']['creator'] = ord('x')
                 p['sections'] = [{'kind': 'ud', 'hdr': dict(apel.gen_hdr(rng), comp=c_), 'payload': b'payload'} for c_ in (0x7E7E, 0x2222, 0x3333, 0x1111)]
                 pels.insert(0, p)
+                # designed: parsers that raise WITHOUT arguments, that have released their view before failing / before answering nothing, that cannot be
+                # imported -- each in a UD and in an ED section, a well-behaved one last
+                p = apel.gen_pel(rng, max_sections=0)
+                p['ph']['creator'] = ord('x')
+                p['sections'] = [{'kind': 'ud', 'hdr': dict(apel.gen_hdr(rng), comp=c_), 'payload': b'payload'} for c_ in (0x5A5A, 0x6B6B, 0x6C6C, 0x8888)] + \
+                                [{'kind': 'ed', 'hdr': dict(apel.gen_hdr(rng), comp=c_), 'payload': b'ed payload', 'creator': ord('x'), 'resv1': 0, 'resv2': 0} for c_ in (0x5A5A, 0x6B6B, 0x1111)]
+                pels.insert(1, p)
                 replies = lean_batch([env.tokens()] + ['pelspec %s %s x' % (apel.tok_cfg(), apel.tok_pel(p)) for p in pels])[1:]
                 for p, r in zip(pels, replies):
                     data = r.bytes()
